@@ -33,6 +33,24 @@ ASSUMPTIONS = [
 ]
 
 MUTANTS = [
+    ("block as wide as the image is high", "AegeanTools/BANE.py",
+     "            data = a[0].section[data_row_min:data_row_max, 0:shape[1]]",
+     "            data = a[0].section[data_row_min:data_row_max, 0:shape[0]]",
+     "C06-R1"),
+    ("astropy scales as well", "AegeanTools/BANE.py",
+     "    with fits.open(filename, memmap=True, do_not_scale_image_data=True) as a:\n        if NAXIS == 2:",
+     "    with fits.open(filename, memmap=True, do_not_scale_image_data=False) as a:\n        if NAXIS == 2:",
+     "C06-R3"),
+    ("box starts above its node", "AegeanTools/BANE.py",
+     "        r_min = max(0, r - box_size[0] // 2)",
+     "        r_min = max(0, r + box_size[0] // 2)", "C06-R13"),
+    ("box ends left of its node", "AegeanTools/BANE.py",
+     "        c_max = min(data.shape[1] - 1, c + box_size[1] // 2)",
+     "        c_max = min(data.shape[1] - 1, c - box_size[1] // 2)",
+     "C06-R13"),
+    ("background added back", "AegeanTools/BANE.py",
+     "    data -= ibkg[data_row_min:data_row_max, :]",
+     "    data += ibkg[data_row_min:data_row_max, :]", "C06-R1"),
     ("clipping skipped when the spread is 'close to zero'",
      "AegeanTools/BANE.py",
      "    mean = np.mean(clipped)\n    prev_valid = len(clipped)\n",
@@ -160,6 +178,157 @@ def _own_rows(prog, mod, sub, own, lo, hi):
         sp.expand(a - (Y0 - L)) == 0 and sp.expand(b - (Y1 - L)) == 0
 
 
+def r13_window(ctx, rule="C06-R13"):
+    """the sample behind every grid node"""
+    from .. import concrete
+    ctx.rule(rule, "the box of every grid node: the statements that turn a "
+             "node (row, column) into the slice handed to the clipping "
+             "routine are interpreted for nodes in the interior, on every "
+             "edge and on the appended last node -- the slice is never "
+             "empty, never starts below 0 and holds a pixel within half a "
+             "box of the node (an empty sample makes the node NaN, and with "
+             "it the maps of an image that has no blank pixel)")
+    raw = ctx.raw_prog()
+    sfn = raw.func("BANE.sigma_filter")
+    helpers = {}
+    sites = []
+    for q_, f_ in sorted(raw.functions.items()):
+        if f_.module != sfn.module:
+            continue
+        for n in ast.walk(f_.node):
+            if isinstance(n, ast.FunctionDef):
+                helpers.setdefault(n.name, n)
+        if f_.short.split(".")[-1] == "sigmaclip":
+            continue
+        for loop in walk_no_nested(f_.node):
+            if not isinstance(loop, ast.For) or any(
+                    isinstance(x, ast.For) for b in loop.body
+                    for x in ast.walk(b)):
+                continue
+            body = loop.body
+            k = next((i for i, st in enumerate(body) if any(
+                isinstance(c, ast.Call) and norm(c.func) == "sigmaclip"
+                for c in ast.walk(st))), None)
+            if k is None:
+                continue
+            sites.append((f_, loop, body[:k], body[k]))
+    ctx.floor(rule, len(sites), 1, "statistics loops in BANE")
+    H, W, bh, bw = 40, 50, 11, 13
+    for host, loop, pre, stat in sites:
+        tgt = loop.target
+        if isinstance(tgt, ast.Tuple) and len(tgt.elts) == 2:
+            cvar = norm(tgt.elts[1])
+        else:
+            cvar = norm(tgt)
+        # the row variable is the target of the enclosing loop
+        outer = next((l for l in ast.walk(host.node)
+                      if isinstance(l, ast.For) and loop in l.body), None)
+        # the block the slices are taken from
+        arr = next((norm(x.value) for st_ in pre + [stat]
+                    for x in ast.walk(st_) if isinstance(x, ast.Subscript)
+                    and isinstance(x.slice, ast.Tuple) and
+                    len(x.slice.elts) == 2 and
+                    all(isinstance(e_, ast.Slice) for e_ in x.slice.elts)
+                    and isinstance(x.value, ast.Name)), "data")
+        if outer is None:
+            ctx.unknown_site(rule, host, "statistics loop is not nested in a "
+                             "row loop", node=loop)
+            continue
+        ot = outer.target
+        rvar = norm(ot.elts[1]) if isinstance(ot, ast.Tuple) and \
+            len(ot.elts) == 2 else norm(ot)
+        # the slice: first argument of the clipping call, through the locals
+        # of the loop body
+        bad = []
+        unk = None
+        for r in (0, 3, 20, H - 1, H):
+            for c in (0, 4, 25, W - 1, W):
+                env = {rvar: r, cvar: c, "box_size": [bh, bw],
+                       "data.shape": [H, W], "shape": [H, W],
+                       arr + ".shape": [H, W]}
+                sl = None
+                try:
+                    for st in pre:
+                        if isinstance(st, ast.Assign) and \
+                                isinstance(st.value, ast.Call) and \
+                                isinstance(st.value.func, ast.Name) and \
+                                st.value.func.id in helpers:
+                            hn = helpers[st.value.func.id]
+                            henv = dict(env)
+                            for p_, a_ in zip([a.arg for a in hn.args.args],
+                                              st.value.args):
+                                henv[p_] = concrete.ev(a_, env)
+                            out, _ = concrete.call(hn, henv)
+                            t = st.targets[0]
+                            if isinstance(t, ast.Tuple) and \
+                                    isinstance(out, list) and \
+                                    len(out) == len(t.elts):
+                                for tt, vv in zip(t.elts, out):
+                                    env[norm(tt)] = vv
+                            else:
+                                env[norm(t)] = out
+                            continue
+                        if isinstance(st, ast.Assign) and \
+                                isinstance(st.value, ast.Subscript) and \
+                                norm(st.value.value) == arr:
+                            sl = st.value.slice
+                            break
+                        if isinstance(st, ast.Assign):
+                            concrete.run([st], env)
+                    if sl is None:
+                        for x in ast.walk(stat):
+                            if isinstance(x, ast.Subscript) and \
+                                    norm(x.value) == arr:
+                                sl = x.slice
+                                break
+                    if sl is None or not isinstance(sl, ast.Tuple) or \
+                            len(sl.elts) != 2 or not all(
+                                isinstance(e_, ast.Slice) for e_ in sl.elts):
+                        unk = "slice of the block not found in the loop body"
+                        break
+                    win = []
+                    for e_, n_ in zip(sl.elts, (H, W)):
+                        lo = 0 if e_.lower is None else \
+                            concrete.ev(e_.lower, env)
+                        hi = n_ if e_.upper is None else \
+                            concrete.ev(e_.upper, env)
+                        win.append((lo, hi))
+                except concrete.Unknown as e:
+                    unk = str(e)
+                    break
+                for (lo, hi), node_, n_, b_, ax in (
+                        (win[0], r, H, bh, "rows"),
+                        (win[1], c, W, bw, "columns")):
+                    if not (isinstance(lo, (int, float)) and
+                            isinstance(hi, (int, float))):
+                        unk = "non-numeric bound"
+                        break
+                    why = None
+                    if lo != int(lo) or hi != int(hi):
+                        why = "is not integral"
+                    elif lo < 0:
+                        why = "starts below 0 (wraps around)"
+                    elif min(hi, n_) - lo < 1:
+                        why = "is empty"
+                    elif lo > node_ + b_ // 2 or \
+                            min(hi, n_) - 1 < node_ - b_ // 2 - 1:
+                        why = "holds no pixel within half a box of the node"
+                    if why:
+                        bad.append((r, c, ax, lo, hi, why))
+            if unk:
+                break
+        if unk:
+            ctx.unknown_site(rule, sfn, "box of a grid node not interpreted: "
+                             + unk, node=loop)
+            continue
+        ctx.check(rule, sfn, "box of every grid node feeding " +
+                  norm(stat, 50), not bad,
+                  "for the node (row %s, column %s) of a %dx%d block with a "
+                  "%dx%d box the %s slice %s:%s %s" %
+                  ((bad[0][0], bad[0][1], H, W, bh, bw, bad[0][2], bad[0][3],
+                    bad[0][4], bad[0][5]) if bad else (0,) * 10), node=stat)
+
+
 def run(ctx):
     prog = ctx.prog
     sfn = prog.func("BANE.sigma_filter")
@@ -206,6 +375,7 @@ def run(ctx):
         raise AnalysisError("C06: block load `data = ....section[...]` not "
                             "found")
     ranges = set()
+    colspecs = []
     for s_val in load_values:
         for x in ast.walk(s_val):
             if isinstance(x, ast.Subscript) and norm(x.value).endswith(
@@ -214,6 +384,7 @@ def run(ctx):
                     else [x.slice]
                 rows = sl[-2]
                 ranges.add((norm(rows.lower), norm(rows.upper)))
+                colspecs.append((x, sl[-1]))
     if len(ranges) != 1:
         raise AnalysisError("C06: load row ranges differ: %s" % ranges)
     lo, hi = ranges.pop()
@@ -230,11 +401,50 @@ def run(ctx):
              "the background of its own row subtracted (whole loaded block "
              "minus background[%s:%s]); pass 1 stores the clipped mean, "
              "pass 2 the clipped std" % (lo, hi))
-    subs = [(n, s) for n, s in g.stmt.items() if g.kind[n] == "stmt" and
-            isinstance(s, ast.AugAssign) and isinstance(s.op, ast.Sub) and
-            (norm(s.target) == "data" or
-             (isinstance(s.target, ast.Subscript) and
-              norm(s.target.value) == "data"))]
+    from ..core import expand_locals as _xl
+    for x_, cs in colspecs:
+        up = None if not isinstance(cs, ast.Slice) or cs.upper is None \
+            else norm(_xl(sfn.node, cs.upper))
+        okc = isinstance(cs, ast.Slice) and cs.step is None and \
+            (cs.lower is None or norm(cs.lower) == "0") and \
+            (up is None or up in ("shape[1]", "shape[-1]"))
+        ctx.check("C06-R1", sfn, "the block holds every column: " +
+                  norm(x_, 70), okc,
+                  "the columns read are `%s`, not 0:shape[1]: the block is "
+                  "narrower (or, for a non-square image, differently shaped) "
+                  "than the rows of the shared maps it is combined with" %
+                  norm(cs), node=x_)
+
+    def _on_data(t):
+        return norm(t) == "data" or (isinstance(t, ast.Subscript) and
+                                     norm(t.value) == "data")
+
+    def _mentions_shared(e):
+        return any(isinstance(x, ast.Name) and x.id in arrays
+                   for x in ast.walk(e))
+    subs = []
+    for n, s in g.stmt.items():
+        if g.kind[n] != "stmt":
+            continue
+        if isinstance(s, ast.Assign) and len(s.targets) == 1 and \
+                _on_data(s.targets[0]) and isinstance(s.value, ast.BinOp) \
+                and norm(s.value.left) == norm(s.targets[0]) and \
+                _mentions_shared(s.value.right):
+            # data = data - bkg[...]: the same as the in-place form
+            aug = ast.AugAssign(target=s.targets[0], op=s.value.op,
+                                value=s.value.right)
+            ast.copy_location(aug, s)
+            s = aug
+        if isinstance(s, ast.AugAssign) and _on_data(s.target) and \
+                (isinstance(s.op, ast.Sub) or _mentions_shared(s.value)):
+            subs.append((n, s))
+    for n, s in subs:
+        ctx.check("C06-R1", sfn, "the background is SUBTRACTED: " +
+                  norm(s, 80), isinstance(s.op, ast.Sub),
+                  "the interpolated background is combined with the loaded "
+                  "block by `%s`, not subtracted: the pass-2 statistics see "
+                  "the DC level, so adding a constant to the image changes "
+                  "the noise map" % type(s.op).__name__, node=s)
     if len(subs) != 1:
         raise AnalysisError("C06-R1: expected one in-place background "
                             "subtraction on the loaded block, found %d" %
@@ -464,6 +674,21 @@ def run(ctx):
     ctx.check("C06-R3", sfn, "data *= BSCALE on load", len(mul) == 1,
               "the memmapped raw values must be scaled exactly once",
               node=mul[0] if mul else sfn.node)
+    if mul:
+        # ... so the file must be opened with the values left raw: astropy
+        # scales on read otherwise and the manual scaling is a second one
+        opens = [c for c in walk_no_nested(sfn.node) if isinstance(c, ast.Call)
+                 and norm(c.func).endswith("fits.open")]
+        for c in opens:
+            rawk = [k for k in c.keywords
+                    if k.arg == "do_not_scale_image_data"]
+            ctx.check("C06-R3", sfn, "values read raw: " + norm(c, 70),
+                      bool(rawk) and isinstance(rawk[0].value, ast.Constant)
+                      and rawk[0].value.value is True,
+                      "the worker multiplies the block by BSCALE itself, but "
+                      "this fits.open lets astropy scale the values on read "
+                      "as well: BSCALE is applied twice and a constant image "
+                      "no longer gives background = that constant", node=c)
     outs = [c for c in walk_no_nested(fimg.node) if isinstance(c, ast.Call)
             and (norm(c.func) in ("write_fits", "fits.PrimaryHDU") or
                  False)]
@@ -691,6 +916,7 @@ def run(ctx):
                                             if v == 1)},
                   node=bad12[0][0] if bad12 else fi12.node)
     ctx.floor("C06-R12", n12, 6, "comparisons examined")
+    r13_window(ctx)
     from .. import link as _link
     n10 = _link.argument_binding(ctx, "C06-R10", modules=["BANE"],
                                  what="BANE: step / box sizes, shapes, "
